@@ -758,7 +758,17 @@ pub async fn exec_c17(script: Value) -> ExecResult {
                 vensure!(g != Gate::NoLogin || console_login_endpoint(p), "C17.valid_session_refused", "{} {} with the live session of {} ({}) is answered not-logged-in on node {} [{}]: {} {:?} {}", m, p, name, if via_cookie { "cookie" } else { "Token header" }, target_id, situation, resp.status, resp.headers, resp.text().chars().take(120).collect::<String>());
                 reach.insert((pi, name), matches!(g, Gate::Through(_)));
                 if p.ends_with("/logout") && matches!(g, Gate::Through(_)) {
-                    // the handler did its work: the session is gone; the user logs in again
+                    // the handler did its work: the session must be gone, whichever way the token was presented to the logout
+                    // call and whichever way it is presented afterwards
+                    advance(300).await;
+                    let old = sessions[name].clone();
+                    if let Some((pp, pm)) = pairs.iter().find(|(pp, _)| !console_login_endpoint(pp) && !pp.ends_with("/logout")) {
+                        for (carrier, hh) in [("Token header", hdr(&old)), ("cookie", cookie(&old))] {
+                            let g2 = gate_of(&call_with(&app, pm, pp, &hh, "", None).await);
+                            vensure!(g2 == Gate::NoLogin, "C17.session_alive_after_logout", "{} {} answered the logout of {} (token sent as {}) but the same token, sent as {}, still opens {} {} afterwards on node {} [{}]: {:?}", m, p, name, if via_cookie { "cookie" } else { "Token header" }, carrier, pm, pp, target_id, situation, g2);
+                        }
+                        sim::count("probe.logout_then_token_refused", 1);
+                    }
                     let t = console_login(&n1, name, &format!("pw-{}-123", name)).await.ok_or_else(|| Violation::new("harness.login", format!("console re-login of {} refused", name)))?;
                     sessions.insert(name, t);
                     advance(50).await;
